@@ -621,8 +621,10 @@ def inject(ctx):
     ctx.ob(['C07'], 'R-DOM', 'C07|associated-always', cont_ok, 'for every resolved base the associated functions are added (the only bypass is an unresolved base)', loc(ac['span']))
     # virtual: under i > 0 (strict), i = enumerate index
     vc = vf[0][0]
-    doms = [(norm_pred(s['cond'], lab)) for s in tdb.switches() for lab, tgt in s['edges'] if s['block'] in body and tdb.dominates(tgt, vc['block']) and tdb.pred(tgt) == [s['block']]]
-    okgt = False
+    # the complete set of conditions under which the call runs: the regions resolved, the base resolved, the base has a vftable,
+    # and index != 0 — nothing else (a further condition would leave some base's virtual functions out)
+    doms = block_conditions(tdb, vc['block'])
+    nidx, extra = 0, []
     for p in doms:
         cp = cmp_parts(p)
         if cp:
@@ -630,7 +632,12 @@ def inject(ctx):
             if is_int(a, 0):
                 op, a, b = SWAP[op], b, a
             if is_int(b, 0) and op in ('Gt', 'Ne') and strip(a)[0] == 'field' and strip(a)[2] == '0' and any(is_call(x, 'Iterator::next') for x in walk(a)):
-                okgt = True
+                nidx += 1
+                continue
+        if p[0] == 'is_some' and (find_calls(p[1], 'resolve_regions') or find_calls(p[1], 'get_region_name_and_type_definition')):
+            continue
+        extra.append(p)
+    okgt = nidx == 1 and not extra
     ctx.ob(['C07'], 'R-GUARD', 'E5|non-first-bases-only', okgt, 'virtual functions are injected exactly for bases with enumerate index > 0 (the first base shares the vftable): %s' % [show(p)[:60] for p in doms], loc(vc['span']))
     # the closure: public only, rename on clash, Field body
     cf = P.fns[cid]
